@@ -5,7 +5,12 @@
 //! K: the real `parse_document(write d)`, serialised position-free, equals `toTree d`
 //!    (kinds, payloads, nesting; every payload field is compared, none is normalised:
 //!    the canonical model determines `marker_offset` = 0, `padding` = marker width + 1,
-//!    `fence_offset` = 0, per-item `start`, `tight` on the list node only).
+//!    `fence_offset` = 0, per-item `start`, `tight` on the list node only, `is_task_list`,
+//!    the `NodeTable` counters `num_columns` / `num_rows` / `num_nonempty_cells`, and for
+//!    footnotes `ix` / `ref_num` / `total_references` after comrak's footnote pass).
+//!    Positions: for every node of a kind the documentation calls position-reliable (not lists,
+//!    items, task items) for which the model claims a position, the real `sourcepos` equals the
+//!    span of `Doc.toTreeP d`; `Doc.posOk d` (C11/C12 oracles on the claimed positions) is reported.
 //! S: the real `markdown_to_html(write d)` equals `refHtml d`, the independent reference renderer.
 use crate::model::{Batch, Model};
 use crate::report::Report;
@@ -17,10 +22,13 @@ use comrak::{markdown_to_html, parse_document, Arena, Options};
 use std::panic::{catch_unwind, AssertUnwindSafe};
 
 /// Options of the real run: the defaults plus the extensions the document's constructs need
-/// (strikethrough, for `~~..~~`).
+/// (strikethrough, table, tasklist, footnotes); raw HTML stays in the default safe mode.
 fn options() -> Options<'static> {
     let mut o = Options::default();
     o.extension.strikethrough = true;
+    o.extension.table = true;
+    o.extension.tasklist = true;
+    o.extension.footnotes = true;
     o
 }
 
@@ -54,6 +62,8 @@ fn ser_nopos<'a>(root: &'a AstNode<'a>) -> String {
 
 struct Real {
     tree: String,
+    /// the same tree with the real source positions
+    ptree: String,
     html: Vec<u8>,
 }
 
@@ -62,11 +72,11 @@ fn real(md: &str) -> Result<Real, String> {
     let tree = catch_unwind(AssertUnwindSafe(|| {
         let arena = Arena::new();
         let root = parse_document(&arena, md, &o);
-        ser_nopos(root)
+        (ser_nopos(root), crate::ser::ser_tree(root))
     }))
     .map_err(|_| "PANIC in parse_document".to_string())?;
     let html = catch_unwind(AssertUnwindSafe(|| markdown_to_html(md, &o))).map_err(|_| "PANIC in markdown_to_html".to_string())?;
-    Ok(Real { tree, html: html.into_bytes() })
+    Ok(Real { tree: tree.0, ptree: tree.1, html: html.into_bytes() })
 }
 
 /// Kinds (pre-order) and maximal depth of a wire tree.
@@ -89,6 +99,79 @@ fn wire_stats(w: &str) -> (Vec<String>, usize) {
         }
     }
     (kinds, maxd)
+}
+
+/// Nodes of a wire tree in pre-order: (kind, [sl, sc, el, ec]).
+fn wire_nodes(w: &str) -> Vec<(&str, [u64; 4])> {
+    let toks: Vec<&str> = w.split(' ').collect();
+    let mut out = vec![];
+    let mut i = 0;
+    while i < toks.len() {
+        if toks[i] == "N" && i + 5 < toks.len() {
+            let n = |k: usize| toks[i + 2 + k].parse::<u64>().unwrap_or(u64::MAX);
+            out.push((toks[i + 1], [n(0), n(1), n(2), n(3)]));
+            i += 6;
+        } else {
+            i += 1;
+        }
+    }
+    out
+}
+
+/// The kinds whose positions comrak's documentation declares unreliable (RenderOptions::sourcepos).
+fn pos_unreliable(kind: &str) -> bool {
+    matches!(kind, "list" | "item" | "taskitem" | "description_list" | "description_item" | "description_term" | "description_details")
+}
+
+/// The wire tree with every position written as 0.
+fn zero_pos(w: &str) -> String {
+    let mut toks: Vec<String> = w.split(' ').map(|s| s.to_string()).collect();
+    let mut i = 0;
+    while i < toks.len() {
+        if toks[i] == "N" && i + 5 < toks.len() {
+            for k in 2..6 {
+                toks[i + k] = "0".into();
+            }
+            i += 6;
+        } else {
+            i += 1;
+        }
+    }
+    toks.join(" ")
+}
+
+/// First node of a reliable kind for which the model claims a position (start line not 0) that
+/// differs from the real one. Both trees have the same shape (checked before).
+fn pos_diff(real: &str, model: &str) -> Option<(usize, String)> {
+    let a = wire_nodes(real);
+    let b = wire_nodes(model);
+    let mut claimed = 0usize;
+    for (i, ((ka, pa), (kb, pb))) in a.iter().zip(b.iter()).enumerate() {
+        if ka != kb {
+            return Some((claimed, format!("node {}: kinds differ ({} / {})", i, ka, kb)));
+        }
+        if pos_unreliable(kb) || pb[0] == 0 {
+            continue;
+        }
+        claimed += 1;
+        if pa != pb {
+            return Some((
+                claimed,
+                format!("node {} ({}): real {}:{}-{}:{} model {}:{}-{}:{}", i, ka, pa[0], pa[1], pa[2], pa[3], pb[0], pb[1], pb[2], pb[3]),
+            ));
+        }
+    }
+    if a.len() != b.len() {
+        return Some((claimed, format!("node counts differ ({} / {})", a.len(), b.len())));
+    }
+    None
+}
+
+/// Number of nodes for which the model claims a position.
+fn pos_claimed(model: &str) -> (u64, u64) {
+    let b = wire_nodes(model);
+    let claimed = b.iter().filter(|(k, p)| !pos_unreliable(k) && p[0] != 0).count() as u64;
+    (claimed, b.len() as u64)
 }
 
 /// Describes the first differing token of two wire trees.
@@ -138,14 +221,38 @@ fn is_hr(l: &[u8]) -> bool {
     l.len() >= 3 && (l[0] == b'*' || l[0] == b'-' || l[0] == b'_') && l.iter().all(|c| *c == l[0])
 }
 
+fn is_delim_row(l: &[u8]) -> bool {
+    l.first() == Some(&b'|') && l.contains(&b'-') && l.iter().all(|c| matches!(c, b'|' | b'-' | b':' | b' '))
+}
+
 /// Narrow syntactic class of a failing document (used to match known findings):
-/// a thematic break inside a list, directly followed by a blank line and more content.
+/// a thematic break inside a list, directly followed by a blank line and more content;
+/// a table without body rows inside a list item, directly followed by more content.
 fn sig_of(md: &[u8]) -> &'static str {
     let lines: Vec<&[u8]> = md.split(|c| *c == b'\n').collect();
     let mut in_list = false;
     for i in 0..lines.len() {
         let (rest, marker) = strip_prefixes(lines[i]);
         in_list |= marker || (in_list && lines[i].starts_with(b" "));
+        if marker {
+            // the item's text starts with an escaped / entity-spelled `[`, then ` `, `x` or `X`, then a closing bracket
+            let open = [&b"\\["[..], &b"&#91;"[..], &b"&#x5B;"[..], &b"&#x5b;"[..]].iter().find(|p| rest.starts_with(p)).map(|p| p.len());
+            if let Some(n) = open {
+                if rest.len() > n && matches!(rest[n], b' ' | b'x' | b'X') {
+                    let t = &rest[n + 1..];
+                    if t.starts_with(b"\\]") || t.starts_with(b"]") || t.starts_with(b"&#93;") {
+                        return "escaped-bracket-read-as-task-marker";
+                    }
+                }
+            }
+        }
+        if in_list && i >= 1 && i + 1 < lines.len() && is_delim_row(rest) {
+            let (h, _) = strip_prefixes(lines[i - 1]);
+            let (n, _) = strip_prefixes(lines[i + 1]);
+            if h.first() == Some(&b'|') && !lines[i + 1].is_empty() && !n.is_empty() && n.first() != Some(&b'|') {
+                return "header-only-table-then-more-content-in-list-item";
+            }
+        }
         if in_list && is_hr(rest) && i + 2 < lines.len() {
             let (b, _) = strip_prefixes(lines[i + 1]);
             let (c, _) = strip_prefixes(lines[i + 2]);
@@ -167,11 +274,36 @@ const HR_PROBES: &[(&str, &str)] = &[
     ("- a\n  ___\n\n- b\n", "<ul>\n<li>\n<p>a</p>\n<hr />\n</li>\n<li>\n<p>b</p>\n</li>\n</ul>\n"),
 ];
 
+/// Directed probes for the second listed finding (outside `Doc.ok`): no blank line anywhere, so
+/// the lists are tight by the rule quoted above.
+const TBL_PROBES: &[(&str, &str)] = &[
+    (
+        "- | a |\n  | - |\n- b\n",
+        "<ul>\n<li>\n<table>\n<thead>\n<tr>\n<th>a</th>\n</tr>\n</thead>\n</table>\n</li>\n<li>b</li>\n</ul>\n",
+    ),
+    (
+        "1. x\n   - | a |\n     | :-: |\n2. y\n",
+        "<ol>\n<li>x\n<ul>\n<li>\n<table>\n<thead>\n<tr>\n<th align=\"center\">a</th>\n</tr>\n</thead>\n</table>\n</li>\n</ul>\n</li>\n<li>y</li>\n</ol>\n",
+    ),
+];
+
+/// Directed probes for the third listed finding (outside `Doc.ok`): CommonMark 2.4 / 6.1, a
+/// backslash-escaped or entity-spelled bracket is a literal character, not the task marker of the
+/// GFM task list extension.
+const TASK_PROBES: &[(&str, &str)] = &[
+    ("- \\[x\\] a\n", "<ul>\n<li>[x] a</li>\n</ul>\n"),
+    ("1. &#91; ] b\n", "<ol>\n<li>[ ] b</li>\n</ol>\n"),
+];
+
 struct Parsed {
     ok: bool,
     md: Vec<u8>,
     html: Vec<u8>,
     tree: String,
+    /// `toTreeP d`: the same tree with the positions the canonical model claims (empty if not sent)
+    ptree: String,
+    /// `Doc.posOk d`: the C11/C12 oracles of Comrak/Sourcepos.lean hold for the claimed positions
+    pos_ok: Option<bool>,
 }
 
 fn parse_resp(resp: &str) -> Option<Parsed> {
@@ -179,8 +311,15 @@ fn parse_resp(resp: &str) -> Option<Parsed> {
     let ok = it.next()? == "1";
     let md = unhex(it.next()?)?;
     let html = unhex(it.next()?)?;
-    let tree = it.next()?.to_string();
-    Some(Parsed { ok, md, html, tree })
+    let rest = it.next()?;
+    let (tree, ptree, pos_ok) = match rest.split_once(" | ") {
+        Some((a, b)) => match b.split_once(" | ") {
+            Some((p, f)) => (a.to_string(), p.to_string(), Some(f.trim() == "1")),
+            None => (a.to_string(), b.to_string(), None),
+        },
+        None => (rest.to_string(), String::new(), None),
+    };
+    Some(Parsed { ok, md, html, tree, ptree, pos_ok })
 }
 
 /// Evaluates K and S for one generated document. Returns (k_failed, s_failed).
@@ -205,8 +344,44 @@ fn eval(p: &Parsed, rep: &mut Report, record: bool, label: &str) -> (bool, bool)
             return (false, true);
         }
     };
-    let kf = r.tree != p.tree;
+    let mut kf = r.tree != p.tree;
     let sf = r.html != p.html;
+    // positions: only when the trees agree position-free
+    if !kf && !p.ptree.is_empty() {
+        let pk = if zero_pos(&p.ptree) != p.tree {
+            Some("toTreeP d is not toTree d with positions filled in".to_string())
+        } else {
+            pos_diff(&r.ptree, &p.ptree).map(|x| x.1)
+        };
+        if record {
+            rep.k_evals += 1;
+            let (c, n) = pos_claimed(&p.ptree);
+            rep.add("positions-compared", c);
+            rep.add("positions-not-claimed", n - c);
+        }
+        if p.pos_ok == Some(false) {
+            kf = true;
+            if record {
+                rep.disagree(
+                    "positions-oracle",
+                    format!("casep {} {}", hex(&p.md), p.ptree),
+                    format!("the positions the model claims fail the C11/C12 oracles (Doc.posOk = false) on {:?} ({})", show(&p.md), label),
+                );
+            }
+        } else if p.pos_ok == Some(true) && record {
+            rep.count("positions-oracles-hold-on-model-tree");
+        }
+        if let Some(d) = pk {
+            kf = true;
+            if record {
+                rep.disagree(
+                    "positions-vs-toTreeP",
+                    format!("casep {} {}", hex(&p.md), p.ptree),
+                    format!("{} on {:?} ({})", d, show(&p.md), label),
+                );
+            }
+        }
+    }
     if record {
         rep.k_evals += 1;
         rep.s_evals += 1;
@@ -231,7 +406,7 @@ fn eval(p: &Parsed, rep: &mut Report, record: bool, label: &str) -> (bool, bool)
 
 pub fn run(cfg: &Cfg, rep: &mut Report) {
     let m = Model::from_env();
-    rep.rule = "documents generated inside the Lean driver from (seed, size) over the canonical class of Comrak/Canon (paragraph, ATX and setext heading, thematic break, fenced and indented code, block quote, tight/loose bullet and ordered lists; text with escapes and character references, code spans, emphasis, strong, strikethrough, inline and reference links with definitions before/after use, label case variants and shadowed duplicate definitions, images, autolinks, hard and soft breaks), each satisfying Doc.ok; the real parser's tree is compared position-free with toTree d, the real HTML with refHtml d. distinct_nontrivial counts distinct node-kind sequences of the generated trees".into();
+    rep.rule = "documents generated inside the Lean driver from (seed, size) over the canonical class of Comrak/Canon (paragraph, ATX and setext heading, thematic break, fenced and indented code, block quote, tight/loose bullet and ordered lists with task items, GFM tables with alignments, HTML blocks of start condition 6, footnote definitions written in any order at the end; text with escapes and character references, code spans, emphasis, strong, strikethrough, inline and reference links with definitions before/after use, label case variants and shadowed duplicate definitions, images, autolinks, hard and soft breaks, footnote references), each satisfying Doc.ok; the real run uses the default options plus the extensions strikethrough, table, tasklist, footnotes (HTML blocks in the default safe mode); the real parser's tree is compared position-free with toTree d and, for the position-reliable kinds, position by position with toTreeP d; the real HTML with refHtml d. distinct_nontrivial counts distinct node-kind sequences of the generated trees".into();
     let n: u64 = if cfg.tier_thorough { 200_000 } else if cfg.full { 30_000 } else { 4_000 };
     let base = cfg.seed.wrapping_mul(1_000_003) % 1_000_000_007;
     let mut failing: Vec<(u64, u64)> = vec![];
@@ -239,25 +414,25 @@ pub fn run(cfg: &Cfg, rep: &mut Report) {
     while done < n {
         let chunk = 4000.min(n - done);
         let reqs: Vec<(u64, u64)> = (done..done + chunk).map(|i| (base + i, i % 16)).collect();
-        let resps = m.batch(&reqs.iter().map(|(s, z)| format!("canon {} {}", s, z)).collect::<Vec<_>>());
+        let resps = m.batch(&reqs.iter().map(|(s, z)| format!("canon2 {} {}", s, z)).collect::<Vec<_>>());
         for ((seed, size), resp) in reqs.iter().zip(resps) {
             let body = match crate::model::ok(&resp) {
                 Ok(b) => b,
                 Err(e) => {
-                    rep.disagree("driver", format!("canon {} {}", seed, size), e);
+                    rep.disagree("driver", format!("canon2 {} {}", seed, size), e);
                     continue;
                 }
             };
             let p = match parse_resp(body) {
                 Some(p) => p,
                 None => {
-                    rep.disagree("driver", format!("canon {} {}", seed, size), "unparsable response".into());
+                    rep.disagree("driver", format!("canon2 {} {}", seed, size), "unparsable response".into());
                     continue;
                 }
             };
             if !p.ok {
                 // the generator builds documents that satisfy Doc.ok by construction; anything else is a driver defect
-                rep.disagree("generator-not-ok", format!("canon {} {}", seed, size), "generated document does not satisfy Doc.ok".into());
+                rep.disagree("generator-not-ok", format!("canon2 {} {}", seed, size), "generated document does not satisfy Doc.ok".into());
                 continue;
             }
             let (kinds, depth) = wire_stats(&p.tree);
@@ -299,11 +474,87 @@ pub fn run(cfg: &Cfg, rep: &mut Report) {
                 if p.tree.contains(" 1 0 N item") {
                     rep.count("docs-with-tight-list");
                 }
+                // tables: documents, header-only tables, columns per alignment, body rows, empty cells
+                let toks: Vec<&str> = p.tree.split(' ').collect();
+                let mut has_table = false;
+                for (i, t) in toks.iter().enumerate() {
+                    if *t == "table" && i >= 1 && toks[i - 1] == "N" && i + 8 < toks.len() {
+                        has_table = true;
+                        rep.count("tables");
+                        if toks[i + 6] == "0" {
+                            rep.count("tables-header-only");
+                        }
+                        rep.add("table-body-rows", toks[i + 6].parse().unwrap_or(0));
+                        for c in toks[i + 8].chars() {
+                            rep.count(match c {
+                                'l' => "table-columns-left",
+                                'r' => "table-columns-right",
+                                'c' => "table-columns-center",
+                                _ => "table-columns-unaligned",
+                            });
+                        }
+                    }
+                    if *t == "table_cell" && i + 5 < toks.len() && toks[i + 5] == "E" {
+                        rep.count("table-cells-empty");
+                    }
+                }
+                if has_table {
+                    rep.count("docs-with-table");
+                }
+                // task items, HTML blocks, footnotes
+                let (mut tasks, mut htmls, mut fdefs, mut frefs) = (0u64, 0u64, 0u64, 0u64);
+                for (i, t) in toks.iter().enumerate() {
+                    if i == 0 || toks[i - 1] != "N" {
+                        continue;
+                    }
+                    match *t {
+                        "taskitem" => {
+                            tasks += 1;
+                            rep.count(if toks.get(i + 5) == Some(&"1") { "task-items-checked" } else { "task-items-unchecked" });
+                        }
+                        "html_block" => htmls += 1,
+                        "footnote_definition" => {
+                            fdefs += 1;
+                            if toks.get(i + 6).and_then(|x| x.parse::<u64>().ok()).unwrap_or(0) > 1 {
+                                rep.count("footnotes-referenced-more-than-once");
+                            }
+                        }
+                        "footnote_reference" => frefs += 1,
+                        _ => {}
+                    }
+                }
+                if tasks > 0 {
+                    rep.count("docs-with-task-items");
+                }
+                if htmls > 0 {
+                    rep.count("docs-with-html-block");
+                }
+                if fdefs > 0 {
+                    rep.count("docs-with-footnotes");
+                    rep.add("footnote-definitions", fdefs);
+                    rep.add("footnote-references", frefs);
+                    let written = lines.iter().filter(|l| l.starts_with(b"[^")).count() as u64;
+                    if written > fdefs {
+                        rep.add("footnote-definitions-unreferenced", written - fdefs);
+                    }
+                    // is the written order of the definitions another one than the order of first reference?
+                    let names_written: Vec<&[u8]> = lines.iter().filter(|l| l.starts_with(b"[^")).map(|l| &l[2..l.iter().position(|c| *c == b']').unwrap_or(2)]).collect();
+                    let mut names_tree: Vec<Vec<u8>> = vec![];
+                    for (i, t) in toks.iter().enumerate() {
+                        if *t == "footnote_definition" && i >= 1 && toks[i - 1] == "N" {
+                            names_tree.push(unhex(toks[i + 5]).unwrap_or_default());
+                        }
+                    }
+                    let same = names_written.iter().filter(|n| names_tree.iter().any(|m| m == *n)).map(|n| n.to_vec()).collect::<Vec<_>>() == names_tree;
+                    if !same {
+                        rep.count("docs-with-footnote-definitions-written-in-another-order");
+                    }
+                }
             }
             if rep.samples.len() < 4 && kinds.len() > 8 {
-                rep.sample(format!("canon {} {}: {:?}", seed, size, show(&p.md)));
+                rep.sample(format!("canon2 {} {}: {:?}", seed, size, show(&p.md)));
             }
-            let (kf, sf) = eval(&p, rep, true, &format!("canon {} {}", seed, size));
+            let (kf, sf) = eval(&p, rep, true, &format!("canon2 {} {}", seed, size));
             if (kf || sf) && failing.len() < 3 {
                 failing.push((*seed, *size));
             }
@@ -311,8 +562,8 @@ pub fn run(cfg: &Cfg, rep: &mut Report) {
         done += chunk;
     }
     // the listed finding, re-observed on every run (S only: these documents are outside Doc.ok)
-    for (md, html) in HR_PROBES {
-        rep.count("directed-hr-blank-probe");
+    for (md, html) in HR_PROBES.iter().chain(TBL_PROBES.iter()).chain(TASK_PROBES.iter()) {
+        rep.count("directed-finding-probe");
         rep.s_evals += 1;
         match real(md) {
             Ok(r) if r.html == html.as_bytes() => {}
@@ -327,7 +578,7 @@ pub fn run(cfg: &Cfg, rep: &mut Report) {
     }
     // shrink: smaller sizes of the same seed are different, smaller documents; report the smallest failing one
     for (seed, size) in failing {
-        let reqs: Vec<String> = (0..size).map(|z| format!("canon {} {}", seed, z)).collect();
+        let reqs: Vec<String> = (0..size).map(|z| format!("canon2 {} {}", seed, z)).collect();
         let resps = m.batch(&reqs);
         for (z, resp) in resps.iter().enumerate() {
             if let Some(p) = crate::model::ok(resp).ok().and_then(parse_resp) {
@@ -338,7 +589,7 @@ pub fn run(cfg: &Cfg, rep: &mut Report) {
                 if kf || sf {
                     // the smaller document goes first: the runner writes the first case of a class as the replay
                     let mut tmp = Report::new("C03");
-                    eval(&p, &mut tmp, true, &format!("shrunk from canon {} {} to size {}", seed, size, z));
+                    eval(&p, &mut tmp, true, &format!("shrunk from canon2 {} {} to size {}", seed, size, z));
                     for c in tmp.s_fail.into_iter().rev() {
                         rep.s_fail.insert(0, c);
                     }
@@ -362,17 +613,39 @@ pub fn replay(kind: &str, input: &str) -> Result<Option<String>, String> {
             let mdstr = String::from_utf8(md.clone()).map_err(|_| "bad utf8")?;
             // the tree is not part of an S replay: take the real one so that only S can fail
             let tree = real(&mdstr).map(|r| r.tree).unwrap_or_default();
-            Parsed { ok: true, md, html, tree }
+            Parsed { ok: true, md, html, tree, ptree: String::new(), pos_ok: None }
+        }
+        ["casep", md, ptree] => {
+            let md = unhex(md).ok_or("bad hex")?;
+            let mdstr = String::from_utf8(md.clone()).map_err(|_| "bad utf8")?;
+            let r = real(&mdstr)?;
+            Parsed { ok: true, md, html: r.html, tree: r.tree, ptree: ptree.to_string(), pos_ok: None }
         }
         ["casek", md, tree] => {
             let md = unhex(md).ok_or("bad hex")?;
             let mdstr = String::from_utf8(md.clone()).map_err(|_| "bad utf8")?;
             let html = real(&mdstr).map(|r| r.html).unwrap_or_default();
-            Parsed { ok: true, md, html, tree: tree.to_string() }
+            Parsed { ok: true, md, html, tree: tree.to_string(), ptree: String::new(), pos_ok: None }
         }
-        ["canon", seed, size] => {
+        ["dumpp", md] => {
+            // development aid: the real tree with positions, one node per line
+            let md = unhex(md).ok_or("bad hex")?;
+            let mdstr = String::from_utf8(md).map_err(|_| "bad utf8")?;
+            let o = options();
+            let arena = Arena::new();
+            let root = parse_document(&arena, &mdstr, &o);
+            return Ok(Some(format!("TREEP {}", crate::ser::ser_tree(root))));
+        }
+        ["dump", md] => {
+            // development aid: prints the real tree and HTML of a document
+            let md = unhex(md).ok_or("bad hex")?;
+            let mdstr = String::from_utf8(md).map_err(|_| "bad utf8")?;
+            let r = real(&mdstr)?;
+            return Ok(Some(format!("TREE {} HTML {:?}", r.tree, String::from_utf8_lossy(&r.html))));
+        }
+        [cmd @ ("canon" | "canon2"), seed, size] => {
             let m = Model::from_env();
-            let r = m.batch(&[format!("canon {} {}", seed, size)]);
+            let r = m.batch(&[format!("{} {} {}", cmd, seed, size)]);
             let body = crate::model::ok(&r[0])?.to_string();
             parse_resp(&body).ok_or("unparsable driver response")?
         }
